@@ -16,6 +16,10 @@
 //!     `Acked::cursor()`, cross-checked against `CursorStore::get_cursor` on the store (`RAWDIFF`
 //!     is appended if they differ).
 //!
+//! `node n0 n1 ; i t j ; ...`
+//!     a real `Node` with two topic streams, acks through the public `StreamSubscription::ack`
+//!     (see `run_node`).
+//!
 //! Authors are real `VerifyingKey`s, topics real `Topic`s, log ids real `LogId::from_topic(..)`
 //! hashes; the output maps them back to scenario indices.
 use std::collections::{BTreeMap, HashMap};
@@ -63,10 +67,18 @@ fn show_state<L: Ord + Copy>(
     state: &LogHeights<VerifyingKey, L>,
     log_idx: &dyn Fn(&L) -> String,
 ) -> String {
+    show_state_by(&|vk: &VerifyingKey| keys.idx_of[vk], state, log_idx)
+}
+
+fn show_state_by<L: Ord + Copy>(
+    author_idx: &dyn Fn(&VerifyingKey) -> u64,
+    state: &LogHeights<VerifyingKey, L>,
+    log_idx: &dyn Fn(&L) -> String,
+) -> String {
     let mut rows: Vec<(u64, String, u32)> = Vec::new();
     let mut empties: Vec<u64> = Vec::new();
     for (vk, inner) in state {
-        let a = keys.idx_of[vk];
+        let a = author_idx(vk);
         if inner.is_empty() {
             empties.push(a);
         }
@@ -178,6 +190,72 @@ async fn run_ack(keys: &mut Keys, body: &str) -> String {
     out.join(" ; ")
 }
 
+/// `node n0 n1 ; i t j ; ...`: a real `Node` (explicit ack policy) with one topic stream per topic
+/// 0 and 1; `n_t` messages are published into topic t; then "subscription i acks the j-th
+/// operation of topic t" through the public `StreamSubscription::ack(hash)`. The cursors are read
+/// back from the node's store with `CursorStore::get_cursor(topic.to_string())`. Output format as
+/// for `ack` (the node's own key is author 0).
+async fn run_node(body: &str) -> String {
+    use p2panda::node::AckPolicy;
+    let mut parts = body.split(';');
+    let counts = h_common::nums(parts.next().unwrap_or(""));
+    let node = p2panda::builder().ack_policy(AckPolicy::Explicit).spawn().await.expect("node");
+    let store = node.store();
+    // Per-case unique topics: the node's database may be shared between nodes of one process.
+    let salt = SALT.fetch_add(1, std::sync::atomic::Ordering::SeqCst) + 1;
+    let topics: Vec<Topic> = (0..2u64).map(|t| topic(1000 * salt + t)).collect();
+    let mut log_to_topic: HashMap<LogId, u64> = HashMap::new();
+    for (t, tp) in topics.iter().enumerate() {
+        log_to_topic.insert(LogId::from_topic(*tp), t as u64);
+    }
+    let mut pubs = Vec::new();
+    let mut subs = Vec::new();
+    for tp in &topics {
+        let (tx, rx) = node.stream::<String>(*tp).await.expect("stream");
+        pubs.push(tx);
+        subs.push(rx);
+    }
+    let mut hashes: Vec<Vec<p2panda_core::Hash>> = vec![Vec::new(), Vec::new()];
+    for t in 0..2usize {
+        for j in 0..counts[t] {
+            let processing = pubs[t].publish(format!("m{}-{}", t, j)).await.expect("publish");
+            hashes[t].push(processing.hash());
+            processing.await.expect("processed");
+        }
+    }
+    let log_idx = |l: &LogId| match log_to_topic.get(l) {
+        Some(t) => t.to_string(),
+        None => "?".to_string(),
+    };
+    let mut out: Vec<String> = Vec::new();
+    for op in parts {
+        let v = h_common::nums(op);
+        if v.is_empty() {
+            continue;
+        }
+        let (i, t, j) = (v[0] as usize, v[1] as usize, v[2] as usize);
+        let res = match subs[i].ack(hashes[t][j]).await {
+            Ok(()) => "ok",
+            Err(AckedError::InvalidTopic(_)) => "InvalidTopic",
+            Err(AckedError::InvalidName(_, _)) => "InvalidName",
+            Err(AckedError::Store(_)) => "Store",
+        };
+        let mut line = res.to_string();
+        for tp in &topics {
+            let raw: Option<Cursor<VerifyingKey, LogId>> =
+                CursorStore::<VerifyingKey, LogId>::get_cursor(&store, tp.to_string())
+                    .await
+                    .expect("get_cursor");
+            let st = raw.map(|c| c.state().clone()).unwrap_or_default();
+            line.push_str(&format!(" [{}]", show_state_by(&|_vk| 0, &st, &log_idx)));
+        }
+        out.push(line);
+    }
+    out.join(" ; ")
+}
+
+static SALT: std::sync::atomic::AtomicU64 = std::sync::atomic::AtomicU64::new(0);
+
 fn main() {
     let rt = tokio::runtime::Builder::new_current_thread().enable_all().build().expect("runtime");
     let mut keys = Keys::new();
@@ -186,6 +264,7 @@ fn main() {
         match kind {
             "adv" => run_adv(&mut keys, body),
             "ack" => rt.block_on(run_ack(&mut keys, body)),
+            "node" => rt.block_on(run_node(body)),
             _ => "BADKIND".to_string(),
         }
     });
